@@ -24,7 +24,7 @@ func bigS(s string) *big.Int {
 	return x
 }
 
-func pow2(n uint) *big.Int { return new(big.Int).Lsh(big.NewInt(1), n) }
+func pow2(n uint) *big.Int     { return new(big.Int).Lsh(big.NewInt(1), n) }
 func sub1(x *big.Int) *big.Int { return new(big.Int).Sub(x, big.NewInt(1)) }
 func neg(x *big.Int) *big.Int  { return new(big.Int).Neg(x) }
 
